@@ -104,6 +104,9 @@ int main(void)
 	long len;
 	long long n;
 
+	/* line-buffered: when an op crashes (ASan abort, alarm) every earlier result is already out,
+	 * so the first missing line is the op that crashed */
+	setvbuf(stdout, NULL, _IOLBF, 0);
 	while ((line = hc_line()) != NULL) {
 		alarm(20);	/* an op that does not return (e.g. a loop that stopped advancing) ends as a crash result */
 		free(in); in = NULL;
